@@ -111,6 +111,9 @@ func (c06) Gen(r *world.Rng, tier string, n int) interface{} {
 	halted := (combo/24)&1 == 1
 
 	regs := world.Regs{AF: uint16(r.Byte()) << 8, IM: mode, IFF1: iff1, IFF2: iff2, I: uint8(r.Range(0x20, 0xef)), R: r.Byte()}
+	if r.Chance(1, 10) {
+		regs.I = []uint8{0x00, 0xff, 0x01, 0xfe}[r.Intn(4)] // vector table in the first / last page (0xFFFE/0xFFFF + wrap)
+	}
 	switch r.Intn(8) {
 	case 0:
 		regs.SP = r.PickU16(0x0000, 0x0001, 0x0002, 0xffff)
@@ -132,6 +135,9 @@ func (c06) Gen(r *world.Rng, tier string, n int) interface{} {
 	tc := uint16(r.Range(0x6000, 0x7fff))
 	subs := []uint16{uint16(r.Range(0x7000, 0x77ff)), uint16(r.Range(0x7800, 0x7fff))}
 	vec := uint8(r.Intn(128) * 2)
+	if r.Chance(1, 6) {
+		vec = []uint8{0x00, 0xfe, 0xfc, 0x02}[r.Intn(4)]
+	}
 
 	var segs []world.Seg
 	for t := 0; t < 8; t++ {
